@@ -363,7 +363,14 @@ def run(tier, t0, only_pairs=None):
 
     import time as _t
     _t0 = _t.time()
-    k = one(prepare, None)
+    try:
+        k = one(prepare, None)
+    except Exception as e:
+        if not common.raised_inside_library(e):
+            raise
+        acc.violation(f'c16:prepare:{common.library_error_line(e)[:60]}', f'a public call raised {common.library_error_line(e)} while the call menu was being derived single-threaded with the library itself',
+                      {'A': '<prepare>', 'B': '<prepare>', 'warm': False, 'gran': 'line', 'k': 0, 'prepare': True})
+        return common.finish(PID, LEVEL, tier, acc, t0, 'call menu construction failed; nothing else was explored', [], exhaustive=False)
     acc.notes.append('phase prepare %.1fs' % (_t.time() - _t0))
     names = sorted(build_menu(k))
     solo_vals = dict(many(solo, [(n, k) for n in names + ['<probe>']]))
@@ -452,7 +459,14 @@ def replay(case):
         if isinstance(res, Exception):
             raise res
         return res
-    k = one(prepare, None)
+    try:
+        k = one(prepare, None)
+    except Exception as e:
+        if not common.raised_inside_library(e):
+            raise
+        return [('c16:prepare', common.library_error_line(e))]
+    if case.get('prepare'):
+        return []
     names = sorted(build_menu(k))
     solo_vals = dict(one(solo, (n, k)) for n in names + ['<probe>'])
     part = one(pair, (case['A'], case['B'], case['warm'], case['gran'], k, solo_vals, [case['k']] if case['k'] else None))
